@@ -39,16 +39,21 @@ type Program struct {
 }
 
 // Load loads ./... of dir. goarch may be "" (host) or e.g. "386".
-func Load(dir, goarch string) (*Program, error) {
+func Load(dir, goarch string) (*Program, error) { return LoadOverlay(dir, goarch, nil) }
+
+// LoadOverlay is Load with in-memory extra files (absolute path -> content); nothing is written to disk.
+// It is used to type-check the positive fixtures inside the real packages.
+func LoadOverlay(dir, goarch string, overlay map[string][]byte) (*Program, error) {
 	env := append(os.Environ(), "GOFLAGS=-mod=mod", "GOPROXY=off", "GOSUMDB=off", "GOTOOLCHAIN=local", "GOWORK=off")
 	if goarch != "" {
 		env = append(env, "GOARCH="+goarch)
 	}
 	cfg := &packages.Config{
-		Mode:  packages.LoadAllSyntax,
-		Dir:   dir,
-		Env:   env,
-		Tests: false,
+		Mode:    packages.LoadAllSyntax,
+		Dir:     dir,
+		Env:     env,
+		Tests:   false,
+		Overlay: overlay,
 	}
 	initial, err := packages.Load(cfg, "./...")
 	if err != nil {
